@@ -72,7 +72,7 @@ def st_Assert(eng, s, st):
             outs.append((s1, _raise(v)))
             continue
         c = eng.truth(s1, v)
-        eng.oblige(s1, f"assert:{ast.unparse(s.test)[:60]}", c, lineno=s.lineno)
+        eng.oblige(s1, f"assert:{eng.assert_label(s)}", c, lineno=s.lineno, text=z3.StringVal(ast.unparse(s.test)[:80]))
         # semantics: a failing assert raises AssertionError; after the obligation we continue on the true branch
         for s2, b in eng.branch(s1, c):
             if b:
